@@ -15,7 +15,7 @@ fn strategy() -> BoxedStrategy<FaultCase> {
         3 => (any::<u16>(), prop_oneof![Just(0u8), Just(0xff), Just(0x80), any::<u8>()]).prop_map(|(p, v)| Mutation::SetByte(p, v)),
         3 => (any::<u16>(), 0u8..5).prop_map(|(p, k)| Mutation::HugeLength(p, k)),
     ];
-    let fault = (0u8..24, prop_oneof![1 => Just(Target::Event), 2 => any::<u16>().prop_map(Target::Response)], mutation).prop_map(|(at, target, mutation)| Fault { at, target, mutation });
+    let fault = (0u8..24, prop_oneof![2 => Just(Target::Event), 4 => any::<u16>().prop_map(Target::Response), 1 => any::<u16>().prop_map(Target::Stray)], mutation).prop_map(|(at, target, mutation)| Fault { at, target, mutation });
     let cfg = GenCfg { abortable: false, task_aborts: false, max_acts: 24, scale: false, ..GenCfg::standard() };
     (universe(cfg), any::<bool>(), prop::collection::vec(fault, 1..8)).prop_map(|(universe, json, faults)| FaultCase { universe, json, faults }).boxed()
 }
@@ -114,6 +114,9 @@ pub fn main(mode: Mode) {
         if info.mutated_valid > 0 {
             labels.push("input:mutated-valid-encoding");
         }
+        if info.stray > 0 {
+            labels.push("input:response-to-an-id-without-outstanding-request");
+        }
         stats.case(c, info.deep, &labels);
         if info.deep && stats.wants_sample() {
             stats.sample(|| serde_json::to_value(c).unwrap());
@@ -147,7 +150,7 @@ pub fn main(mode: Mode) {
                 Report {
                     prop,
                     tier,
-                    rule: "histories of <= 24 shell actions on the bincode or the JSON bridge with 1-7 malformed inputs injected at generated points, as an event or as the response to an outstanding request: random bytes (<= 300), or a truncated / extended / bit-flipped / byte-overwritten / length-corrupted variant of a valid encoding; each bridge call that sees such an input runs under catch_unwind with a counting allocator (bound 16 MiB + 16 x what the typed twin allocates for the value the input denotes; a single allocation above 1 GiB is refused, and the resulting abort is reported as a violation with the input in flight); a typed twin core that never sees a rejected input (and loses the one request a rejected one-shot response was addressed to) must show the same effects, resolution results and view for the rest of the history; non-trivial = a mutated valid encoding arrived with >= 2 requests outstanding and >= 3 actions followed; distinct = distinct case",
+                    rule: "histories of <= 24 shell actions on the bincode or the JSON bridge with 1-7 malformed inputs injected at generated points, as an event, as the response to an outstanding request, or as a response under an id that names no outstanding request (a notification, an answered one-shot, an id never handed out: must be rejected and change nothing): random bytes (<= 300), or a truncated / extended / bit-flipped / byte-overwritten / length-corrupted variant of a valid encoding; each bridge call that sees such an input runs under catch_unwind with a counting allocator (bound 16 MiB + 16 x what the typed twin allocates for the value the input denotes; a single allocation above 1 GiB is refused, and the resulting abort is reported as a violation with the input in flight); a typed twin core that never sees a rejected input (and loses the one request a rejected one-shot response was addressed to) must show the same effects, resolution results and view for the rest of the history; non-trivial = a mutated valid encoding arrived with >= 2 requests outstanding and >= 3 actions followed; distinct = distinct case",
                     assumptions: vec![
                         "responses are addressed to outstanding ids (the documented precondition); unknown ids are decided by C02".into(),
                         "inputs are capped at 600 bytes because the test app's event type is recursive (bincode has no depth limit; not a crux property)".into(),
